@@ -76,17 +76,29 @@ Proof.
     destruct subs as [|[s0 lv0] rest].
     + inversion E; reflexivity.
     + destruct (all_eq_shape s0 _); inversion E; subst. cbn [snd]. exact (G _ eq_refl).
-  - cbn [np_flat] in E. inversion E; subst. cbn [snd]. cbn [float_repr_ok] in W. apply andb_true_iff in W. tauto.
+  - destruct (np_flat_PArr dt l) as [sh E']. rewrite E' in E. inversion E; subst. cbn [snd]. cbn [float_repr_ok] in W.
+    apply andb_true_iff in W. tauto.
+Qed.
+
+Lemma tagged_FR : forall dt tl l', Forall2 (fun a b => conv_tagged dt a = Ok b) tl l' -> forallb FR (map snd tl) = true ->
+  forallb (frepr_elem dt) l' = true /\ forallb FR l' = true.
+Proof.
+  intros dt tl l' H. induction H as [|a b l l' Hab _ IH]; intros F; [auto|].
+  cbn [map forallb] in *. apply andb_true_iff in F. destruct F as [Fa Fl]. destruct (IH Fl) as [E R].
+  assert (Hb : frepr_elem dt b = true /\ FR b = true).
+  { unfold conv_tagged in Hab. destruct (fst a); [eapply conv_elem_FR | eapply conv_leaf_FR]; eauto. }
+  destruct Hb as [Eb Rb]. rewrite Eb, Rb, E, R. auto.
 Qed.
 
 Lemma np_array_FR : forall dt y l, np_array dt y = Ok l -> FR y = true ->
   forallb (frepr_elem dt) l = true /\ forallb FR l = true.
 Proof.
   intros dt y l H W.
-  assert (Old : (sl <- np_flat y ;; mapM (conv_leaf dt) (snd sl)) = Ok l ->
+  assert (Old : (sl <- np_flat_t y ;; mapM (conv_tagged dt) (snd sl)) = Ok l ->
                 forallb (frepr_elem dt) l = true /\ forallb FR l = true).
-  { intros H'. destruct (np_flat y) as [shl|] eqn:N; cbn [bind] in H'; [|discriminate].
-    eapply (all_conv_FR conv_leaf); eauto using conv_leaf_FR, np_flat_FR. }
+  { intros H'. destruct (np_flat_t y) as [[sh tl]|] eqn:N; cbn [bind snd] in H'; [|discriminate].
+    apply mapM_Forall2 in H'. apply (tagged_FR _ _ _ H').
+    exact (np_flat_FR _ _ (np_flat_t_flat _ _ _ N) W). }
   destruct y; try (apply Old; exact H).
   cbn [np_array] in H. cbn [float_repr_ok] in W. apply andb_true_iff in W. destruct W as [_ W].
   eapply (all_conv_FR conv_elem); eauto using conv_elem_FR.
